@@ -78,6 +78,15 @@ def classesOK (env : MEnv) : Bool :=
   env.t.ct.all (fun p => p.2.contains "object")
 
 
+/-- no class of the case stands for the scope mapping (T-rooted destinations) -/
+def noScope (env : MEnv) : Bool := env.flags.all (fun p => !p.2.contains "scope")
+
+/-- path arguments are immediate values (never heap references) -/
+def argsScalar : List Step → Bool
+  | [] => true
+  | (_, .ref _) :: _ => false
+  | _ :: r => argsScalar r
+
 end Glom.Mut
 
 namespace Glom.C11
@@ -146,6 +155,12 @@ def buildTail (env : MEnv) (kind : String) (v : Val) : List Step → Heap → Op
           | some (.ok w) => some (w.heap, c, hid || w.hidden, n + 1)
           | _ => none
       else none
+
+/-- a value arg mode leaves alone: an immediate, or an existing object that is not an exact
+    list / dict / tuple / set / frozenset (those are *rebuilt* by `_ArgValuator.mode`) -/
+def valOK (h : Heap) : Val → Bool
+  | .ref a => decide (a < h.length) && !rebuilds h (.ref a)
+  | _ => true
 
 /-- the value denoted by the `val` argument -/
 def refVal (env : MEnv) (h : Heap) (target : Val) : ValSpec → Option Val
@@ -247,7 +262,7 @@ def checkC11 (env : MEnv) (h : Heap) (target root : Val) (orig : List Step) (vs 
   | .ok h' hid calls =>
     obs.res == .ok target && obs.heap == h' && obs.calls == calls && obs.hidden == hid
   | .fail atomic =>
-    obs.res.isErr && (!atomic || (obs.heap.take h.length == h && !obs.hidden))
+    obs.res.isErr && (!atomic || obs.heap.take h.length == h)
   | .unsupported => false
 
 /-! ### well-formedness of the extracted facts -/
